@@ -87,7 +87,7 @@ UNIT = {
     "name": "sct_content",
     "needs_expanded": True,
     "property": ["C14", "C11"],
-    "prelude": ["shim_nom.rs"],
+    "prelude": ["shim_nom.rs", "shim_std.rs"],
     "items": [
         adt(F_SH, "struct", "HashAlgorithm"),
         adt(F_SH, "struct", "SignAlgorithm"),
@@ -100,9 +100,12 @@ UNIT = {
         # only the pieces of derived's spec text that do not mention the key-exchange types
         {"file": "-", "kind": "inline", "name": "contracts", "text": _dv.SPEC_CORE + SPEC},
     ] + _dv_items + [
-        # `&[u8] -> &[u8; 32]` via try_into().expect(): ASSUMED to be the same 32 bytes (Kani leaf_sct_entry asserts the log id
-        # by pointer on the compiled code); the take(32) in front of it is what the contract states
-        {"file": F_CT, "kind": "fn", "name": "parse_log_id", "external_body": True, "contract": "    ensures log_id_post(i@, r),"},
+        # R18: `key_id.try_into()` named as the shim function slice_try_into_array (verus/shim_std.rs); take(32), the struct
+        # literal and `.expect(..)` (vstd: requires the value to be Ok, i.e. the conversion can never panic) verbatim
+        {"file": F_CT, "kind": "fn", "name": "parse_log_id", "contract": "    ensures log_id_post(i@, r),",
+         "subst": [(r"key_id: (\w+)\s*\.try_into\(\)", r"key_id: slice_try_into_array(\1)")],
+         "splices": [{"at_start": True, "text": "    let ghost i0 = i@;"},
+                     {"after": r"let \(i, key_id\) = [^;]*;", "text": "    proof { assert(key_id@ =~= i0.subrange(0, 32)); assert(i@ =~= i0.subrange(32, i0.len() as int)); }"}]},
         {"file": F_CT, "kind": "fn", "name": "parse_ct_extensions", "contract": "    ensures ct_ext_post(i@, r),",
          "splices": [{"at_start": True, "text": "    let ghost i0 = i@;\n    proof { reveal_with_fuel(be_val, 3); }"},
                      {"after": r"let \(i, ext_len\) = [^;]*;", "text": "    proof { assert(ext_len as int == be16s(i0, 0)); assert(i@ =~= i0.subrange(2, i0.len() as int)); }"},
